@@ -394,7 +394,17 @@ pub fn rand_tcp_elements(rng: &mut Prng) -> Vec<TcpOptionElement> {
             2 => TcpOptionElement::WindowScale(rng.u8_corner()),
             3 => TcpOptionElement::SelectiveAcknowledgementPermitted,
             4 => TcpOptionElement::Timestamp(rng.u32_corner(), rng.u32_corner()),
-            _ => TcpOptionElement::SelectiveAcknowledgement((rng.u32(), rng.u32()), [None, None, None]),
+            _ => {
+                // every subset of the three optional blocks, holes included (the encoder packs them)
+                let mut rest: [Option<(u32, u32)>; 3] = [None; 3];
+                let mask = rng.below(8);
+                for (i, r) in rest.iter_mut().enumerate() {
+                    if mask & (1 << i) != 0 {
+                        *r = Some((rng.u32_corner(), rng.u32_corner()));
+                    }
+                }
+                TcpOptionElement::SelectiveAcknowledgement((rng.u32(), rng.u32()), rest)
+            }
         });
     }
     v
